@@ -697,28 +697,48 @@ func TestC16Concurrent(t *testing.T) {
 			}
 			seenTx[*o.Tx.ID], seenLog[*o.Log.ID] = i, i
 		}
-		var lastTx, lastLog uint64
+		// commit order. Two writers that move a common (account, asset) pair are serialised by the row lock on its volumes
+		// before either draws its ids: between them, the later commit holds the larger ids. Writers on disjoint pairs are
+		// the territory of the known finding (ids follow insertion, not commit).
+		pairsOf := func(o concOutcome) map[[2]string]bool {
+			m := map[[2]string]bool{}
+			for _, p := range o.Tx.Postings {
+				m[[2]string{p.Source, p.Asset}] = true
+				m[[2]string{p.Destination, p.Asset}] = true
+			}
+			return m
+		}
+		var committed []int
 		for _, wid := range s.CommitOrder() {
 			o := outs[wid]
 			if o.Err != nil || o.Hit || o.Tx == nil {
 				continue
 			}
-			if known.IsOpen(FindingCommitOrder) {
-				if w.St != nil && (*o.Tx.ID < lastTx || *o.Log.ID < lastLog) {
-					w.St.Excluded(FindingCommitOrder)
+			committed = append(committed, wid)
+		}
+		for bi, b := range committed {
+			for _, a := range committed[:bi] {
+				oa, ob := outs[a], outs[b]
+				inOrder := *oa.Tx.ID < *ob.Tx.ID && *oa.Log.ID < *ob.Log.ID
+				shared := false
+				pa := pairsOf(oa)
+				for k := range pairsOf(ob) {
+					if pa[k] {
+						shared = true
+					}
 				}
-				if *o.Tx.ID > lastTx {
-					lastTx = *o.Tx.ID
+				switch {
+				case inOrder:
+				case shared:
+					w.V("C16", "writers %d and %d move a common (account, asset) pair; %d committed first with transaction id %d / log id %d, %d after it with %d / %d: the later commit received a smaller id\n%s\nschedule:\n  %s", a, b, a, *oa.Tx.ID, *oa.Log.ID, b, *ob.Tx.ID, *ob.Log.ID, describeOuts(ws, outs), strings.Join(s.Trace, "\n  "))
+				case known.IsOpen(FindingCommitOrder):
+					if w.St != nil {
+						w.St.Excluded(FindingCommitOrder)
+					}
+				default:
+					w.V("C16", "writer %d committed after writer %d but received transaction id %d / log id %d (writer %d: %d / %d)\n%s\nschedule:\n  %s", b, a, *ob.Tx.ID, *ob.Log.ID, a, *oa.Tx.ID, *oa.Log.ID, describeOuts(ws, outs), strings.Join(s.Trace, "\n  "))
 				}
-				if *o.Log.ID > lastLog {
-					lastLog = *o.Log.ID
-				}
-				continue
 			}
-			if *o.Tx.ID < lastTx || *o.Log.ID < lastLog {
-				w.V("C16", "writer %d committed after a writer holding higher ids but received transaction id %d / log id %d (previous commit: %d / %d)\n%s\nschedule:\n  %s", wid, *o.Tx.ID, *o.Log.ID, lastTx, lastLog, describeOuts(ws, outs), strings.Join(s.Trace, "\n  "))
-			}
-			lastTx, lastLog = *o.Tx.ID, *o.Log.ID
 		}
 		// requests that arrive once all of these have been answered (served by whichever pooled connection comes up)
 		// are later commits in every sense: their ids exceed every id handed out so far
